@@ -45,6 +45,8 @@ ASSUMPTIONS = [
     "(selftest); a size smaller than the layout's own fields is not a header and is skipped",
     "streams are io.BytesIO / regular files, i.e. read(n) returns n bytes unless at end of file",
     "sample_count = 0 and PCM with a requested 1-byte dtype are outside the property and skipped",
+    "wide_frames: 'any channel count' is probed at the channel counts that put ONE frame on and next to "
+    "1/2, 1, 2, 3 and 4 times the reader's 16384-byte read (4096 .. 32769 channels), 1..5 samples each",
 ]
 
 READ = 16384
